@@ -1,3 +1,4 @@
+pub mod der;
 pub mod sm2;
 pub mod sm3;
 pub mod sm4;
